@@ -86,6 +86,12 @@ claim("C13", "deterministic simulation with fault injection: complete enumeratio
       "trusted: harness monitors; allocation bound 16 MiB + 64 x input per call; stack depth proportional to input is not flagged unless the process dies",
       "DESIGN.md section 5 C13", category="fault_enumeration")
 
+claim("C14", SIM + "; oracles: twin world without fragmentation (same seed, same messages) for the sender; the specification's reassembly rule as executable model + shadow reference for the receiver",
+      "Sender: twin worlds (fragment size s vs none) send texts up to 70 000 bytes with s from the minimum that leaves one payload byte up to 65535; each piece must be <= s, strictly well-formed, numbered 1..n, carry the right tags, and reassemble to exactly the twin's bytes; the peer returns each text exactly once. "
+      "Receiver: an attacker drops, duplicates, reorders, restarts, interleaves whole messages and injects 12 kinds of crafted fragments, with injections biased to land right after a stream completed; a fragment that does not complete a message by the reassembly rule must leave no sign of processing (plaintext, reply, event, error), texts are returned at most once, and the shadow reference must agree on every delivery.",
+      "trusted: refotr fragment parser/reassembler (spec rule); harness; piece counts are capped at 4000 in quick and 65000 in thorough",
+      "DESIGN.md section 5 C14")
+
 _todo = "check not built yet in this session (see DESIGN.md section 12 build order)"
 for pid in [ "C11", "C12", "C13", "C14", "C15", "C16", "C18", "C19", "C20"]:
     NA[pid] = _todo
